@@ -111,12 +111,9 @@ Qed.
 (* ------------------------------------------------------------ close() *)
 (* a pool that is not RUN accepts no new job of any kind *)
 Theorem closed_rejects_apply s so ha lo slot :
-  pstate s <> 0 ->
-  (do_apply s so ha lo slot = (s, RRefused) \/ do_apply s so ha lo slot = (s, RBlocked)).
+  pstate s <> 0 -> do_apply s so ha lo slot = (s, RRefused).
 Proof.
-  intros Hp. unfold do_apply.
-  destruct ((match slot with Some b => b | None => putlocks s end) && (LaxSem.value (sem s) =? 0)); [right; reflexivity|].
-  replace (negb (pstate s =? 0)) with true by lia. left; reflexivity.
+  intros Hp. unfold do_apply. replace (negb (pstate s =? 0)) with true by lia. reflexivity.
 Qed.
 
 Theorem closed_rejects_map s n cs : pstate s <> 0 -> do_map s n cs = (s, RRefused).
